@@ -357,6 +357,7 @@ def r_lexer_preconditions(r, prog):
 def run(ctx):
     prog = ctx.prog
     ctx.run_rule('C06.1', 'T10', 'symbols are per file', perfile.r_symbols_per_file, prog)
+    ctx.run_rule('C06.1b', 'T10', 'every -D symbol is defined for every file (the set reaches the preprocessor unfiltered)', perfile.r_symbols_reach_preprocessor, prog)
     ctx.run_rule('C06.2a', 'T13', 'evaluation semantics of directives and expressions (precondition ledger)', r_evaluation_semantics, prog)
     ctx.run_rule('C06.2d', 'T3', 'first true branch wins; selected nodes are processed in place and in order', r_selection_structure, prog)
     ctx.run_rule('C06.2b', 'T1', 'defined_symbols is written only by process_nodes', r_symbols_single_writer, prog)
